@@ -5,18 +5,23 @@ def _noop(params=None, returns=None, note="no framework-visible effect"):
         d["returns"] = returns
     return d
 
-CLASSES = {"wpilib.DSControlWord": {"fields": {}}, "wpilib.Timer": {"fields": {"g_last": "Real"}}}
+GLOBALS = {"g_ds_enabled": "Bool", "g_ds_auto": "Bool", "g_ds_test": "Bool"}
+CLASSES = {"wpilib.DSControlWord": {"fields": {"en": "Bool", "auto": "Bool", "test": "Bool"}}, "wpilib.Timer": {"fields": {"g_last": "Real"}}}
 CONTRACTS = {
-    "wpilib.DriverStation.refreshData": _noop(),
-    "wpilib.DriverStation.isTeleopEnabled": _noop(returns="Bool", note="arbitrary driver-station input"),
-    "wpilib.DriverStation.isAutonomousEnabled": _noop(returns="Bool", note="arbitrary driver-station input"),
+    "wpilib.DriverStation.refreshData": {"kind": "external", "params": {}, "modifies": ["g_ds_enabled", "g_ds_auto", "g_ds_test"], "ensures": {},
+                                         "note": "new (arbitrary) control word from the driver station"},
+    "wpilib.DriverStation.isTeleopEnabled": {"kind": "external", "params": {}, "returns": "Bool", "ensures": {"enabled and neither autonomous nor test": "result == (g_ds_enabled and not g_ds_auto and not g_ds_test)"}},
+    "wpilib.DriverStation.isAutonomousEnabled": {"kind": "external", "params": {}, "returns": "Bool", "ensures": {"enabled and autonomous": "result == (g_ds_enabled and g_ds_auto)"}},
     "hal.observeUserProgramTeleop": _noop(), "hal.observeUserProgramDisabled": _noop(),
     "hal.observeUserProgramTest": _noop(), "hal.observeUserProgramAutonomous": _noop(),
     "hal.observeUserProgramStarting": _noop(),
     "wpilib.LiveWindow.setEnabled": _noop({"on": "py"}),
-    "wpilib.DSControlWord.__init__": _noop(),
-    "wpilib.DSControlWord.isEnabled": _noop(returns="Bool", note="arbitrary driver-station input"),
-    "wpilib.DSControlWord.isTest": _noop(returns="Bool", note="arbitrary driver-station input"),
+    "wpilib.DSControlWord.__init__": {"kind": "external", "params": {}, "modifies": ["self.en", "self.auto", "self.test"],
+                                      "ensures": {"snapshot of the current control word": "self.en == g_ds_enabled and self.auto == g_ds_auto and self.test == g_ds_test"}},
+    "wpilib.DSControlWord.isEnabled": {"kind": "external", "params": {}, "returns": "Bool", "ensures": {"flag": "result == self.en"}},
+    "wpilib.DSControlWord.isTest": {"kind": "external", "params": {}, "returns": "Bool", "ensures": {"flag": "result == self.test"}},
+    "wpilib.DSControlWord.isAutonomous": {"kind": "external", "params": {}, "returns": "Bool", "ensures": {"flag": "result == self.auto"}},
+    "wpilib.DSControlWord.isTeleop": {"kind": "external", "params": {}, "returns": "Bool", "ensures": {"flag": "result == (not self.auto and not self.test)"}},
     "wpilib.DSControlWord.isDSAttached": _noop(returns="Bool", note="arbitrary driver-station input"),
     "wpilib.Timer.__init__": {"kind": "external", "params": {}, "modifies": ["self.g_last"], "ensures": {"starts at 0": "self.g_last == 0"}},
     "wpilib.Timer.start": _noop(),
